@@ -835,6 +835,9 @@ func main() {
 		heldCase(c, fmt.Sprintf("held-parallel#%d", i), r)
 	})
 	c.Count("held_parallel_cases", c.Counter("held_cases")-before)
+	// independent encoders at the same time, every text / blob / key in the long length classes (parlong.go)
+	nParLong := c.N(6400, 64000)
+	c.ParallelCases("parallel-long", nParLong, 8, func(i int, r *vlib.Rand) { parallelLongCase(c, i, r) })
 
 	// many values through one output and one input; shared sub-objects; histories
 	nStream := c.N(96, 960)
@@ -843,6 +846,9 @@ func main() {
 	c.Cases("shared", nShared, func(i int, r *vlib.Rand) { sharedCase(c, i, r) })
 	nHistory := c.N(5000, 80000)
 	c.Cases("history", nHistory, func(i int, r *vlib.Rand) { historyCase(c, i, r) })
+	// histories of containers grown over the table-size thresholds (histgrow.go)
+	nGrown := c.N(2100, 21000)
+	c.Cases("history-grown", nGrown, func(i int, r *vlib.Rand) { grownHistoryCase(c, i, r) })
 
 	// ---- flush evidence ---------------------------------------------------------------------
 	for k, n := range stat {
@@ -949,6 +955,8 @@ func main() {
 		for _, mu := range historyMutators {
 			floor("history_mutations_"+mu, int64(nHistory)/200, c.Counter("history_mutations_"+mu))
 		}
+		grownFloors(floor, c, nGrown)
+		parallelLongFloors(floor, c, nParLong)
 		for _, w := range []string{"str", "int"} {
 			floor("maps_chain_ge8_"+w, int64(nCollide/40), stat["maps_chain_ge8_"+w])
 			floor("maps_table_grown_"+w, int64(nCollide/50), stat["maps_table_grown_"+w])
